@@ -41,7 +41,7 @@ MUTANTS = [
      "                elif resp_entry is not None:\n                    responses.insert(0, resp_entry)", "batch results in reverse order"),
     ("c03-invalid-entry-id-dropped", "C03", S, '            "Invalid request parameters or method.",\n            rpcid=rpcid,',
      '            "Invalid request parameters or method.",', "invalid entries lose their id"),
-    ("c04-truthiness-notification-test", "C04", S, 'is_notification = "id" not in request or request["id"] in (None, "")',
+    ("c03-truthiness-notification-test", "C03", S, 'is_notification = "id" not in request or request["id"] in (None, "")',
      'is_notification = not request.get("id")', "requests with id 0 / false / [] are treated as notifications: never answered"),
     ("c04-pooled-notification-also-inline", "C04", S,
      "                self.__notification_pool.enqueue(\n                    self._dispatch, method, params, config\n                )\n\n            # Return immediately\n            return None",
@@ -61,7 +61,7 @@ MUTANTS = [
      "dunder-looking fields (e.g. __d__) are not dumped"),
     ("c07-classes-not-forwarded-in-dicts", "C07", K, "        return {key: load(value, classes) for key, value in obj.items()}",
      "        return {key: load(value) for key, value in obj.items()}", "local classes fail inside plain dicts (hence in every RPC)"),
-    ("c09-worker-swallows-task-done", "C09", T, "                        # Mark the action as executed\n                        self._queue.task_done()\n",
+    ("c11-worker-swallows-task-done", "C11", T, "                        # Mark the action as executed\n                        self._queue.task_done()\n",
      "                        # Mark the action as executed\n                        pass\n", "join() never returns after a task ran"),
     ("c09-future-stores-repr", "C09", T, "            self._done_event.set(result)", "            self._done_event.set(result if result is None or isinstance(result, (int, str)) else repr(result))",
      "the future does not yield the very object returned"),
@@ -138,7 +138,10 @@ MUTANTS = [
      "    if config.use_jsonclass or \"result\" in data:\n        # Convert beans\n        data = jsonclass.load(data, config.classes)", "responses are translated although the switch is off"),
 ]
 
-CONTROLS = {"c01-kwargs-as-list", "c11-stop-without-sentinels", "c11-restart-keeps-stop-flag"}
+# controls: changes that do NOT break the property (equivalent or unobservable with the stdlib JSON backend): a check
+# that fires on one of these would be raising a false alarm
+CONTROLS = {"c01-kwargs-as-list", "c11-stop-without-sentinels", "c11-restart-keeps-stop-flag",
+            "c12-request-enqueued-twice", "c17-length-from-text"}
 
 
 def main():
